@@ -22,7 +22,8 @@ func TestMain(m *testing.M) {
 		"and lists of AddPublisherDecorators/AddSubscriberDecorators calls, all before Run; one message per handler; every middleware logs enter/leave, every decorator appends its id to a metadata field. "+
 		"Oracle = exact expected trace `enter m1..mk, handler, leave mk..m1` (router-level + own in global registration order) and decorator tag strings in registration order, for every handler. "+
 		"Exhaustive: all programs with <= N registrations over {R, A, B} with both AddHandler calls at every legal position; random: up to 20 registrations, 4 handlers, decorator lists up to length 5. "+
-		"Non-trivial: the program mixes router-level registrations with handler-level registrations of >=2 handlers (middleware part) or has >=2 decorators and >=2 handlers (decorator part).")
+		"Non-trivial: the program mixes router-level registrations with handler-level registrations of >=2 handlers (middleware part) or has >=2 decorators and >=2 handlers (decorator part)."+
+		" Random programs may register the decorators (and one more router-level middleware) through a RouterPlugin, and may place a forwarder component with middlewares of its own on the router (op F): those run on the forwarder's handler only.")
 	lib.Extra("assumptions", []string{
 		"all registrations happen before Run (middlewares registered after a handler started are not part of the property)",
 		"scripted subscriber/publisher per handler; 20 s liveness bound",
